@@ -1,14 +1,1 @@
-HOOK_COMMITS = []
-NOT_APPLICABLE = {}
-ENGINES = [
-    dict(name='safety', path='go/cmd/safety + lean/XV/Model/Safety.lean', serves_properties=['C14'],
-         kind_free_text='Lean model of CheckProposal/CheckVote + translated CalVotesThreshold; harness drives the real DefaultSaftyRules with real ECDSA keys'),
-]
-META = {
-    'C14': dict(
-        text="Kernel-checked theorems (lean/XV/Props/C14.lean) about the certificate check: the threshold function regenerated from saftyrules.go decides k+1 >= n - floor((n-1)/3) for every n>=1 (threshold_value); acceptance implies that many distinct members with valid signatures over the certified id, for every validator set and every multiset of entries (qc_needs_quorum_partial, counted_le_validMembers); repeated entries, non-members and invalid signatures never help (repeat_irrelevant, nonmember_irrelevant, invalid_member_sig_rejects). The full statement (quorum besides the collector) is refuted on model and code (qc_needs_quorum_counterexample, known finding collector-counted) and proved under 'collector has no entry' (qc_needs_quorum_no_collector_entry). Tie: CalVotesThreshold/CheckPacemaker are translated from source on every run; the loop model is compared with the real CheckProposal/CheckVote using real keys and signatures on all multisets for small n and random ones up to n=10.",
-        design_ref='DESIGN.md §6 C14',
-        note="Trusted: Lean kernel, the go/ast translator, the harness. ECDSA/address derivation are run for real in the harness but abstracted to a boolean in the model. Not covered: view-number preconditions of CheckProposal, tdpos/xpoa CheckMinerMatch wrappers (they pass the previous block's validator set to the same function).",
-        technique='Lean 4 proof over translated threshold function + hand model of the signature loop; exhaustive/random differential correspondence with real signatures',
-    ),
-}
+from props import META, NOT_APPLICABLE, HOOK_COMMITS, ENGINES  # kept for tools/mkmanifest.py
